@@ -33,11 +33,14 @@ ALIAS = ["\u00ef", "\u00bf", "\u00a3", "\u00ba", "\u00a5", "\u00ae", "\u06c0", "
 USERINFOS_I = USERINFOS + ["é", "日本"] + ALIAS[:6]
 HOSTS = ["", "h", "example.org", "1.2.3.4", "255.255.255.255", "256.1.1.1", "[::1]", "[::]",
          "[1:2:3:4:5:6:7:8]", "[1::8]", "[::1.2.3.4]", "[v1.a:b]", "[vF.x]", "h%41", "a.b-c_d~",
-         "%C3%A9", "127.0.0.1", "[1:2:3:4:5:6:1.2.3.4]", "[1:2::7:8]"]
+         "%C3%A9", "127.0.0.1", "[1:2:3:4:5:6:1.2.3.4]", "[1:2::7:8]",
+         # names a special case could be keyed on
+         "localhost", "LOCALHOST", "localhost.", "www.example.com", "example.com", "0.0.0.0", "[::ffff:127.0.0.1]"]
 HOSTS_I = HOSTS + ["é.org", "日本"] + ["h" + a for a in ALIAS[:6]]
-PORTS = [None, None, "", "8", "80", "8080", "0", "65536", "000080", "123456", "0" * 20 + "1", "99999", "65535"]
+PORTS = [None, None, "", "8", "80", "8080", "0", "65536", "000080", "123456", "0" * 20 + "1", "99999", "65535", "443", "21", "22"]
 SEGS = ["a", "b", "c", "", ".", "..", "a:b", ":", "@", "a@b", "%2E", "%2e%2E", "a%2Fb", "x.y",
-        "...", ";p", "a=1", "~", "-", "%41", "1:a", "@:b", "aaa", "d;p"]
+        "...", ";p", "a=1", "~", "-", "%41", "1:a", "@:b", "aaa", "d;p",
+        "index.html", "%20", "a%20b", "a+b", ".git", ".well-known", "..a", "a..", ".a.", "%2e.", ".%2E"]
 SEGS_I = SEGS + ["é", "日本", "a:é", "é:b", "a中:b", "日:本", "\U0001F600:x"] + ALIAS + ["na\u00efve", "\u00bfq", "1\u00a3"]
 QUERIES = [None, None, "", "q", "a=b&c=d", "/?", "?", "q%41", "a/b?c", ":@", "%FF", "@", "u@h:8", "t=1:2",
            "//x@y/z"]
